@@ -77,6 +77,7 @@ Inductive out :=
 | OSlices (hoff : nat) (h t : list cell)   (* head slice at slot [hoff], tail slice at slot 0 *)
 | ODst (vs : list cell)                    (* Some(()) and what was copied / cloned into dst *)
 | OPanic
+| OPending                                 (* Poll::Pending (async wrappers only) *)
 | OBad.                                    (* operation not offered in this state (typing) *)
 
 (** Ledger events of owned items (what the buffer does to objects). *)
